@@ -63,7 +63,7 @@ template <class RandomAccessIterator, class DistanceCallback> class VantagePoint
   public:
     // Default constructor
     VantagePointTree(RandomAccessIterator b, RandomAccessIterator e, DistanceCallback c)
-        : begin(b), items(), callback(c), tau(0.0), root(0)
+        : begin(b), items(), callback(c), tau(0.0), vantage_state(0x9E3779B97F4A7C15ULL), root(0)
     {
         items.reserve(e - b);
         for (RandomAccessIterator i = b; i != e; ++i)
@@ -108,6 +108,7 @@ template <class RandomAccessIterator, class DistanceCallback> class VantagePoint
     std::vector<RandomAccessIterator> items;
     DistanceCallback callback;
     double tau;
+    unsigned long long vantage_state;
 
     struct Node
     {
@@ -144,6 +145,19 @@ template <class RandomAccessIterator, class DistanceCallback> class VantagePoint
         }
     };
 
+    // Vantage points are drawn from a generator owned by the tree and seeded with a constant: which of
+    // several equidistant neighbours is returned must not depend on how often std::rand() was called
+    // before (i.e. on earlier embed calls in the same process).
+    ScalarType next_vantage_fraction()
+    {
+#ifdef CUSTOM_UNIFORM_RANDOM_FUNCTION
+        return tapkee::uniform_random();
+#else
+        vantage_state = vantage_state * 6364136223846793005ULL + 1442695040888963407ULL;
+        return static_cast<ScalarType>(vantage_state >> 11) / 9007199254740992.0;
+#endif
+    }
+
     Node* buildFromPoints(int lower, int upper)
     {
         if (upper == lower)
@@ -156,7 +170,7 @@ template <class RandomAccessIterator, class DistanceCallback> class VantagePoint
 
         if (upper - lower > 1)
         {
-            int i = (int)(tapkee::uniform_random() * (upper - lower - 1)) + lower;
+            int i = (int)(next_vantage_fraction() * (upper - lower - 1)) + lower;
             std::swap(items[lower], items[i]);
 
             int median = (upper + lower) / 2;
